@@ -95,6 +95,8 @@ def gen(ctx, deep):
                     jobs.append((cfg, [a]))
                     jobs.append((cfg, [("autonotify", False), a]))
                     jobs.append((cfg, [("autosave", False), a]))
+                    jobs.append((cfg, [("autonotify", False), ("setwatcher",), a]))
+                    jobs.append((cfg, [("setwatcher",), a]))
                 if not is_async or deep:
                     for a in ops:
                         for b in ops:
@@ -109,11 +111,87 @@ def gen(ctx, deep):
     return jobs
 
 
+def unfaithful_adapter_stream(ctx, res, deep):
+    """adapters outside the Lean model's faithful adapter: (a) an adapter whose add_policy / remove_policy answer False for one
+    designated rule, (b) an adapter without the batch methods.  Judged on the implementation only: a call that reports
+    failure notifies nobody, a call that reports success notifies exactly once with the prescribed callback"""
+    rng = ctx["rng"]
+    shape = "rbac"
+    P, G, G2, R = ec.universe(shape)
+    ops = [o for o in ec.op_alphabet(shape) if o[0] in ("add", "addmany", "remove", "removemany")]
+    n = 0
+    for is_async in (False, True):
+        for kind in ("plain", "ex"):
+            for variant in ("rejects-add", "rejects-remove", "nobatch"):
+                for init in ({"p": [], "g": [], "g2": []}, {"p": P, "g": G, "g2": G2}):
+                    for op in ops:
+                        cfg = ec.Config(shape, adapter=True, watcher=kind, initial=init, is_async=is_async)
+                        e, ad, w = ec.build_enforcer(cfg)
+                        if variant.startswith("rejects"):
+                            bad = [list(P[0]), list(G[0])]
+                            for name in (("add_policy",) if variant == "rejects-add" else ("remove_policy",)):
+                                orig = getattr(ad, name)
+
+                                def mk(orig):
+                                    if is_async:
+                                        async def f(sec, ptype, rule):
+                                            if list(rule) in bad:
+                                                return False
+                                            return await orig(sec, ptype, rule)
+                                    else:
+                                        def f(sec, ptype, rule):
+                                            if list(rule) in bad:
+                                                return False
+                                            return orig(sec, ptype, rule)
+                                    return f
+
+                                setattr(ad, name, mk(orig))
+                        else:
+                            # hide the batch interface
+                            class NoBatch:
+                                def __init__(self, inner):
+                                    object.__setattr__(self, "_inner", inner)
+
+                                def __getattr__(self, name):
+                                    if name in ("add_policies", "remove_policies"):
+                                        raise AttributeError(name)
+                                    return getattr(object.__getattribute__(self, "_inner"), name)
+
+                            e.adapter = NoBatch(ad)
+                        w0 = len(w.log)
+                        try:
+                            ret = ec.res_str(ec.impl_call(e, op, is_async))
+                        except Exception as ex:  # noqa
+                            ret = ec.exc_str(ex)
+                        got = list(w.log[w0:])
+                        n += 1
+                        res.evaluations += 1
+                        res.count("stream:unfaithful-adapter:" + variant)
+                        res.nontrivial.add(hash(("unf", is_async, kind, variant, repr(init), repr(op))))
+                        if ret.startswith("!"):
+                            continue
+                        success = ret == "T"
+                        exp = [expected(op, kind)] if success else []
+                        if got != exp:
+                            res.violation(
+                                {
+                                    "signature": f"C20:unfaithful-adapter:{variant}:{op[0]}:{kind}{':async' if is_async else ''}",
+                                    "what": f"rbac, {kind} watcher, adapter that {'answers False for one rule (' + variant + ')' if variant.startswith('rejects') else 'lacks the batch methods'}: {list(op)} returned {ret} and notified {got}; expected {exp}",
+                                    "case": {"variant": variant, "kind": kind, "async": is_async, "initial": init, "op": list(op)},
+                                    "expected": exp,
+                                    "observed": got,
+                                    "model_text": ec.TEXT[shape],
+                                    "kind_of_case": "unfaithful-adapter",
+                                }
+                            )
+
+
 def run(ctx):
     res = common.Result()
     stages = [False] if not ctx["deep"] else ([True] if ctx["proof_ok"] else [False, True])
     for deep in stages:
         ec.run_configs(res, gen(ctx, deep), judge, fresh_oracle=False)
+        unfaithful_adapter_stream(ctx, res, deep)
         if res.spec_violations:
             break
     res.rule = (
@@ -127,6 +205,10 @@ def run(ctx):
 
 
 def replay(obj):
+    if obj.get("kind_of_case") == "unfaithful-adapter":
+        r = common.Result()
+        unfaithful_adapter_stream({"rng": __import__("random").Random(0)}, r, False)
+        return any(v["signature"] == obj["signature"] for v in r.spec_violations)
     case = obj["case"]
     c = case["config"]
     cfg = ec.Config(c["shape"], adapter=c["adapter"], watcher=c["watcher"], initial=c["initial"], is_async=c.get("async", False))
